@@ -35,9 +35,9 @@ def suite(wt):
 def main(only=None):
     os.makedirs(SCR, exist_ok=True)
     results = []
-    for out in sorted(glob.glob("/tmp/mut/C*/OUT/[AB]")) + sorted(glob.glob("/tmp/mut2/C*/OUT/[AB]")) + sorted(glob.glob("/tmp/mut3/C*/OUT/[AB]")) + sorted(glob.glob("/tmp/mut4/C*/OUT/[AB]")) + sorted(glob.glob("/tmp/mut5/C*/OUT/[AB]")) + sorted(glob.glob("/tmp/mut6/C*/OUT/[AB]")) + sorted(glob.glob("/tmp/mut7/C*/OUT/[AB]")) + sorted(glob.glob("/tmp/mut8/C*/OUT/[AB]")) + sorted(glob.glob("/tmp/mut9/C*/OUT/[AB]")) + sorted(glob.glob("/tmp/mut10/C*/OUT/[AB]")) + sorted(glob.glob("/tmp/mut11/C*/OUT/[AB]")) + sorted(glob.glob("/tmp/mut12/C*/OUT/[AB]")) + sorted(glob.glob("/tmp/mut13/C*/OUT/[AB]")):
+    for out in sorted(glob.glob("/tmp/mut/C*/OUT/[AB]")) + sorted(glob.glob("/tmp/mut2/C*/OUT/[AB]")) + sorted(glob.glob("/tmp/mut3/C*/OUT/[AB]")) + sorted(glob.glob("/tmp/mut4/C*/OUT/[AB]")) + sorted(glob.glob("/tmp/mut5/C*/OUT/[AB]")) + sorted(glob.glob("/tmp/mut6/C*/OUT/[AB]")) + sorted(glob.glob("/tmp/mut7/C*/OUT/[AB]")) + sorted(glob.glob("/tmp/mut8/C*/OUT/[AB]")) + sorted(glob.glob("/tmp/mut9/C*/OUT/[AB]")) + sorted(glob.glob("/tmp/mut10/C*/OUT/[AB]")) + sorted(glob.glob("/tmp/mut11/C*/OUT/[AB]")) + sorted(glob.glob("/tmp/mut12/C*/OUT/[AB]")) + sorted(glob.glob("/tmp/mut13/C*/OUT/[AB]")) + sorted(glob.glob("/tmp/mut14/C*/OUT/[AB]")):
         prop = out.split("/")[3]; variant = out.split("/")[5]
-        sid = f"{prop}-{variant}" + ("2" if out.startswith("/tmp/mut2/") else "3" if out.startswith("/tmp/mut3/") else "4" if out.startswith("/tmp/mut4/") else "5" if out.startswith("/tmp/mut5/") else "6" if out.startswith("/tmp/mut6/") else "7" if out.startswith("/tmp/mut7/") else "8" if out.startswith("/tmp/mut8/") else "9" if out.startswith("/tmp/mut9/") else "10" if out.startswith("/tmp/mut10/") else "11" if out.startswith("/tmp/mut11/") else "12" if out.startswith("/tmp/mut12/") else "13" if out.startswith("/tmp/mut13/") else "")
+        sid = f"{prop}-{variant}" + ("2" if out.startswith("/tmp/mut2/") else "3" if out.startswith("/tmp/mut3/") else "4" if out.startswith("/tmp/mut4/") else "5" if out.startswith("/tmp/mut5/") else "6" if out.startswith("/tmp/mut6/") else "7" if out.startswith("/tmp/mut7/") else "8" if out.startswith("/tmp/mut8/") else "9" if out.startswith("/tmp/mut9/") else "10" if out.startswith("/tmp/mut10/") else "11" if out.startswith("/tmp/mut11/") else "12" if out.startswith("/tmp/mut12/") else "13" if out.startswith("/tmp/mut13/") else "14" if out.startswith("/tmp/mut14/") else "")
         if only and sid not in only: continue
         dest = f"/verif/seeded/{sid}"
         if os.path.exists(dest + "/meta.json") and not only: 
